@@ -110,3 +110,74 @@ def first_token_equivalence():
         return 'impl says %r (matcher %s), spec says %r' % (iv, impl[j][0] if j is not None else None, svs)
     n, w = prod.explore(bad)
     return n, w, {'impl_matchers': ni, 'spec_matchers': len(specs), 'byte_classes': len(prod.reps)}
+
+
+# ------------------------------------------------------------------------------------------------ fusion relation
+
+STRING_DQ = rb'"(\\[\x00-\xff]|[^"\\\n])*"'
+STRING_SQ = rb"'(\\[\x00-\xff]|[^'\\\n])*'"
+STRING_LONG0 = rb'\[\[([^\]]|\](?!\]))*\]\]'
+OPENERS = (('open-longstring', rb'\[=*\['), ('open-comment', rb'--\[\['), ('open-dq', rb'"'), ('open-sq', rb"'"))
+
+
+def token_classes(variant=0):
+    """Spec token classes as (class name, kind, regex).  Finer than kinds: one class per symbol, per keyword, per
+    numeral form, per string delimiter."""
+    out = []
+    for s in symbols_of_impl():
+        out.append(('sym:' + s.decode('latin1'), 'symbol', esc(s)))
+    for k in LS.KEYWORDS:
+        out.append(('kw:' + k.decode(), 'keyword', esc(k)))
+    out.append(('name', 'name', LS.NAME))
+    out.append(('name:?', 'name', LS.QUESTION[0]))
+    for i, p in enumerate(LS.NUMBER_PICO8 if variant == 0 else LS.NUMBER_NO_TRAILING_DOT):
+        out.append(('num:%d' % i, 'number', p))
+    out.append(('label', 'label', LS.LABEL[0]))
+    out.append(('str:dq', 'string', STRING_DQ))
+    out.append(('str:sq', 'string', STRING_SQ))
+    out.append(('str:long', 'string', STRING_LONG0))
+    return out
+
+
+def fusion_relation(variant=0, K=()):
+    """FUSE = {((class1, last byte class), (class2, first byte class)): shortest witness (text, split)} such that for
+    some c1 in L(class1) ending in that byte class, c2 in L(class2) starting in that byte class and continuation r,
+    maximal munch over LexSpec does NOT end the first token of c1.c2.r at |c1| (it takes a longer token -- the two tokens
+    fuse, or the pair opens a comment / string -- or cannot end a token there at all).  Byte classes: a byte of K, or
+    'o' (any other byte).  Computed from LexSpec alone by exhaustive exploration of one product automaton; complete
+    for all texts of the classes."""
+    classes = token_classes(variant)
+    early = [(nm, kind, R.Matcher(R.build(p))) for nm, kind, p in classes]
+    extra = [(nm, 'open', R.Matcher(R.build(p))) for nm, p in OPENERS] + \
+            [('comment', 'comment', R.Matcher(R.build(p))) for p in LS.COMMENT]
+    late_pats = []
+    for nm, kind, p in classes:
+        if nm == 'str:long':
+            p = rb'\[=*\['                 # every long-string opener
+        elif nm == 'str:dq':
+            p = rb'"'
+        elif nm == 'str:sq':
+            p = rb"'"
+        late_pats.append((nm, p))
+    late = [(nm, R.Matcher(R.build(p))) for nm, p in late_pats]
+    K = list(K)
+    ne0 = len(early)
+    allearly = early + extra
+    prod = R.SplitProduct([m for _, _, m in allearly], [m for _, m in late], K)
+    names1 = [nm for nm, _, _ in early]
+    names2 = [nm for nm, _ in late]
+    kw_idx = [i for i, (nm, k, _) in enumerate(early) if k == 'keyword']
+    name_idx = names1.index('name')
+
+    def visit(A, later, LA, lastc, firstc):
+        if not later:
+            return None
+        firsts = [i for i in A if i < ne0]
+        if not firsts:
+            return None
+        # a name text that is a reserved word is not a name token (C07 / C02): the class 'name' excludes them
+        if any(i in A for i in kw_idx):
+            firsts = [i for i in firsts if i != name_idx]
+        return [((names1[i], lastc), (names2[j], firstc)) for i in firsts for j in LA]
+    n, found = prod.explore(visit)
+    return found, {'states': n, 'classes': len(classes), 'byte_classes': len(prod.reps)}
